@@ -154,6 +154,8 @@ def check_status_case(rep, kind, st, ext, out, six_rule, sig):
     probs = []
     if out[0] not in ("ok", "pycomm"):
         probs.append(("foreign-exception", f"{out!r:.120}"))
+    elif out[0] == "pycomm" and st != 0 and kind in ("read", "write", "rmw", "readfrag-first", "readfrag-middle", "readfrag-last", "writefrag-first", "writefrag-last", "multi-packet-read", "multi-packet-write"):
+        probs.append(("raised-instead-of-falsy", f"general status {st:#04x} ext {list(ext)}: the call raised {out[1]}: {str(out[2])[:60]!r} instead of returning a falsy result"))
     elif st == 0:
         if not ok:
             probs.append(("success-rejected", f"status 0 but result {out!r:.120}"))
@@ -283,6 +285,9 @@ def run_multi(rep, op, tier):
     rep.sample({"multi_service": op, "vectors": "all over {0,4,5,6,0xFF} for 2 and 3 services"})
 
 
+RESULT_OPS = ("generic-connected", "generic-unconnected", "read", "write", "read-multi", "write-multi", "readfrag", "writefrag", "rmw")
+
+
 def run_encap(rep, tier):
     """Header-only encapsulation error replies for every request kind."""
     ops = {
@@ -327,6 +332,9 @@ def run_encap(rep, tier):
                 if hit:
                     if out[0] not in ("ok", "pycomm"):
                         probs.append(("foreign-exception", f"{out!r:.120}"))
+                    elif out[0] == "pycomm" and name in RESULT_OPS and nth == 1:
+                        # the property promises a falsy RESULT with an error text for a well-formed error reply to a read / write / message, not an exception
+                        probs.append(("raised-instead-of-falsy", f"encapsulation status {es:#x}: the call raised {out[1]}: {str(out[2])[:60]!r}"))
                     elif name.startswith("logix-open"):
                         pass  # open() may legitimately succeed (ListIdentity is advisory, a refused Forward Open is retried): only the exception type is constrained
                     elif ok and name != "list-identity":
